@@ -23,6 +23,7 @@ func init() {
 		registry[id].Run = func(c *Ctx) { prev(c); extra(c) }
 	}
 	wrap("C18", extra11C18)
+	wrap("C08", extra11C08)
 }
 
 // ---------------------------------------------------------------------------------- C18
@@ -87,4 +88,81 @@ func extra11C18(c *Ctx) {
 		c.Check(rule, f.Key()+" refusal has one of the two permitted reasons", c.Pos(ex.Return), ok, why)
 	}
 	c.Expect(rule, "non-success returns of Sampler.Sample", n, 3)
+}
+
+// ---------------------------------------------------------------------------------- C08
+
+func extra11C08(c *Ctx) {
+	rule := "C08-R18"
+	c.Rule(rule, "the digest Resolve returns is the digest of the whole link file: readAndSum hashes what it reads through a reader limited by its limit parameter, so each of its success returns is on the edge where the number of bytes read was compared with that limit and did not exceed it (it reads limit+1 to be able to tell) — without the test a link file larger than the limit resolves to, and is stored under, the digest of its prefix")
+	if f := c.Fn(rule, blobPkg, "readAndSum"); f != nil {
+		info := f.Info()
+		g := c.G(f)
+		limit := paramAt(f, 1)
+		n := 0
+		for _, ex := range g.Returns() {
+			if g.ReturnKind(ex) != core.RetSuccess {
+				continue
+			}
+			n++
+			ok := false
+			for _, a := range g.AtomsAt(ex.Loc) {
+				be, isB := ast.Unparen(a.Expr).(*ast.BinaryExpr)
+				if !isB {
+					continue
+				}
+				x, op, y := be.X, be.Op, be.Y
+				if core.UsesObj(info, x, limit) {
+					x, y, op = y, x, flip(op)
+				}
+				if !core.UsesObj(info, y, limit) || core.UsesObj(info, x, limit) {
+					continue
+				}
+				if len(core.CallsTo(info, x, false, "builtin.len")) != 1 {
+					continue
+				}
+				// read ≤ limit
+				if (op == token.GTR && !a.Val) || (op == token.LEQ && a.Val) {
+					if id, isId := ast.Unparen(stripConv(info, y)).(*ast.Ident); isId && info.Uses[id] == limit {
+						ok = true
+					}
+				}
+			}
+			c.Check(rule, f.Key()+" success only when the file fitted the limit", c.Pos(ex.Return), ok, "the success return is not on the edge `len(read) <= limit`: a longer file would be reported under the digest of its first limit bytes")
+		}
+		c.Expect(rule, "success returns of readAndSum", n, 1)
+	}
+
+	rule = "C08-R19"
+	c.Rule(rule, "a name is linked only to a blob that exists: Get reports a zero-length blob file as absent (it is what an unfinished write leaves), so DiskCache.Link reaches its copy of the blob into the link file only past a test of the opened blob's size from which a refusal is reachable — without it Link of a failed Put's placeholder takes copyNamedFile's size-0 shortcut, truncates the existing link and returns nil")
+	if f := c.Fn(rule, blobPkg, "DiskCache.Link"); f != nil {
+		info := f.Info()
+		g := c.G(f)
+		hits := g.FindCalls(blobPkg + ".DiskCache.copyNamedFile")
+		c.Expect(rule, "copyNamedFile calls in Link", len(hits), 1)
+		for _, h := range hits {
+			ok := false
+			for _, cb := range g.CondBlocks() {
+				if cb.Cond == nil {
+					continue
+				}
+				sized := false
+				for _, call := range core.Calls(cb.Cond, false) {
+					if strings.HasSuffix(core.CalleeName(info, call), "FileInfo.Size") {
+						sized = true
+					}
+				}
+				cl := g.CondLoc(cb.B)
+				if !sized || !g.Dominates(cl, h.Loc) {
+					continue
+				}
+				for _, ex := range g.Returns() {
+					if g.ReturnKind(ex) == core.RetError && g.ReachesAvoiding(cl, ex.Loc, h.Loc) {
+						ok = true
+					}
+				}
+			}
+			c.Check(rule, f.Key()+" copies the blob only past a size test that can refuse", c.Pos(h.Node), ok, "no test of the opened blob's size dominates the copy: an empty placeholder would be linked")
+		}
+	}
 }
